@@ -224,8 +224,12 @@ fn shrink_string(s: &str, keep: &mut dyn FnMut(&str) -> bool) -> String {
 pub fn minimise(check: &dyn Check, t: &Trace, ctx: &Ctx, rule: &str, budget: usize) -> Trace {
     let mut best = t.clone();
     let mut attempts = 0usize;
+    // besides the attempt budget a wall-clock budget: a single execution of a long trace (line-feed
+    // bursts, gigantic screens) can take seconds. The minimised trace is verified by a fresh-process
+    // replay anyway, so stopping early only means a longer replay file.
+    let started = Instant::now();
     let mut try_cand = |cand: &Trace, attempts: &mut usize| -> bool {
-        if *attempts >= budget {
+        if *attempts >= budget || started.elapsed().as_secs() >= 45 {
             return false;
         }
         *attempts += 1;
